@@ -273,10 +273,13 @@ class TimeDependentLinearPDE(LinearPDE):
 
     def observe(self, solution):
 
+        has_time_axis = True # the last axis of the observed solution is the time axis
+
         # If observation grid is the same as solution grid and observation time
         # is the final time step then no need to interpolate
         if self.grids_equal and np.array_equal(self.time_steps[-1:], self._time_obs):
             solution_obs = solution[..., -1]
+            has_time_axis = False
 
         # Same grids and every observation time is a time step: read off the
         # stored levels (exact; also possible where no spline exists)
@@ -306,8 +309,9 @@ class TimeDependentLinearPDE(LinearPDE):
         if self.observation_map is not None:
             solution_obs = self.observation_map(solution_obs)
         
-        # drop the time axis if only one time observation (never the space axis: one observed node stays a 1-vector)
-        if len(self._time_obs) == 1 and solution_obs.ndim > 1:
+        # drop the time axis if only one time observation (never a space axis: one observed node stays a 1-vector).
+        # The final-time restriction above has no time axis left to drop.
+        if len(self._time_obs) == 1 and has_time_axis and solution_obs.ndim > 1 and solution_obs.shape[-1] == 1:
             solution_obs = solution_obs.squeeze(axis=-1)
 
         return solution_obs
